@@ -46,11 +46,17 @@ func c06Parse(src []rune, preempt int) {
 	nd.Drain()
 
 	nd.SchedMode(preempt)
+	nd.RaceMonitor(true)
 	s1 := NewScanner(src)
 	before := nd.Goroutines()
 	cmds1, comm1, err1 := parser.ParseCommands(nil, "src", s1)
 	used1 := s1.I
 	alive := nd.Goroutines() - before
+	// the caller uses the results: these reads must be ordered after every
+	// write of the goroutines the call started
+	nresults := len(cmds1) + len(comm1)
+	_ = nresults
+	nd.RaceMonitor(false)
 	nd.SchedMode(-1)
 	nd.Observe(string(src))
 
@@ -96,11 +102,13 @@ func c06Eval(expr string, preempt int) {
 	nd.Drain()
 
 	nd.SchedMode(preempt)
+	nd.RaceMonitor(true)
 	e1 := interp.NewExecEnv("sh")
 	e1.Set("a", "5")
 	before := nd.Goroutines()
 	n1, err1 := e1.Eval(expr)
 	alive := nd.Goroutines() - before
+	nd.RaceMonitor(false)
 	nd.SchedMode(-1)
 	nd.Observe(expr)
 
